@@ -301,7 +301,7 @@ pub fn run(g: &mut Global) {
         },
         &check,
     );
-    g.random("random", g.tier.pick(50000, 3000000), &strategy, &check);
+    g.random("random", g.tier.pick(150000, 3000000), &strategy, &check);
     // identity events (tele.rs): at one or two steps the instance is replaced by its clone, by a used instance
     // (same or longer periods) that clone_from()s it, or by its serde round trip; nothing may change
     g.random("events", g.tier.pick(20000, 400000), &|| crate::tele::wrap(strategy()), &|t: &crate::tele::TCase<Case>, ctx: &mut Ctx| crate::tele::check_wrapped(t, ctx, t.case.gen_prefix.as_ref().map(|g| g.1).unwrap_or(0) + t.case.prefix.len() + t.case.suffix.len(), t.case.cfg.n(), check));
